@@ -906,7 +906,7 @@ Qed.
 (** ** controllers *)
 Lemma h_sync_if_needed nf full oc o p :
   hoareF nf (inv full oc) (sync_if_needed o p) (fun _ => inv full oc) (inv full oc).
-Proof. unfold sync_if_needed. destruct (p_plain p); [apply h_sync_each|apply h_ret'; auto]. Qed.
+Proof. unfold sync_if_needed. apply h_sync_each. Qed.
 Lemma h_on_pod_delete nf full oc p :
   hoareF nf (inv full oc) (on_pod_delete p) (fun _ => inv full oc) (inv full oc).
 Proof. unfold on_pod_delete. hb; [apply h_pop_ord|]. apply h_sync_if_needed. Qed.
@@ -1100,6 +1100,7 @@ Proof.
   exact (I2 p g Hp Hr Hl Hc).
 Qed.
 
+
 (** * Part 6: what the syncs achieve *)
 
 (** ** 6a. Histories without outside deletions of reservation pods: a sync never
@@ -1136,7 +1137,7 @@ Lemma live_carrier_shrinks s0 s g : shrinks s0 s -> (live_carrier s g <-> live_c
 Proof.
   intros [H _]. split; intros [p [Hp [Hr Hlc]]]; exists p; (split; [apply (H p Hr); exact Hp|auto]).
 Qed.
-Lemma noleak_shrinks s0 s g : shrinks s0 s -> noleak g s0 -> noleak g s.
+Lemma noleak_shrinks g s0 s : shrinks s0 s -> noleak g s0 -> noleak g s.
 Proof.
   intros Hs Hn Hr. apply (live_carrier_shrinks s0 s g Hs). apply Hn. eapply has_res_shrinks; eauto.
 Qed.
@@ -1153,7 +1154,8 @@ Proof.
   - destruct (last_res t) eqn:E; [discriminate|]. exfalso. exact (IH Hin Hr eq_refl).
 Qed.
 
-(** shape of the triples of this section: the initial store is named *)
+(** shape of the triples of this section: the initial store is named; with no
+    faults ([nf = true]) the abnormal exit is unreachable *)
 Definition sync_spec {A} (nf : bool) (oc : option pid) (s0 : list pod) (f : M A) (G : list pod -> Prop) : Prop :=
   hoareF nf (fun s n => inv true oc s n /\ s = s0) f
          (fun _ s n => inv true oc s n /\ shrinks s0 s /\ (nf = true -> G s))
@@ -1180,42 +1182,678 @@ Proof.
   intros a s n [H1 [H2 H3]]. auto.
 Qed.
 Lemma sync_spec_ret {A} nf oc s0 (a : A) (G : list pod -> Prop) :
-  (inv true oc s0 (1%positive) \/ True -> forall n, inv true oc s0 n -> G s0) -> sync_spec nf oc s0 (ret a) G.
+  (forall n, inv true oc s0 n -> G s0) -> sync_spec nf oc s0 (ret a) G.
 Proof.
-  intros H. unfold sync_spec. intros w Hnf [Hinv ->]. cbn. split; [|reflexivity].
+  intros H. unfold sync_spec. intros w Hnf [Hinv Hs]. subst s0. cbn. split; [|reflexivity].
   split; [exact Hinv|]. split; [apply shrinks_refl|]. intros _. eapply H; eauto.
 Qed.
+(** operations that do not touch store / next *)
 Lemma sync_spec_frame {A} nf oc s0 (f : M A) :
-  (forall P E, (forall s n, P s n -> E s n) -> hoareF nf P f (fun _ => P) E) ->
-  sync_spec nf oc s0 f (fun _ => True).
+  (forall P E, hoareF nf P f (fun _ => P) E) -> sync_spec nf oc s0 f (fun _ => True).
 Proof.
-  intros H. unfold sync_spec.
-  eapply h_conseq; [apply (H (fun s n => inv true oc s n /\ s = s0) (fun _ _ => False))| | |]; cbn beta.
-Abort.
+  intros H. unfold sync_spec. eapply h_post; [|apply H]. cbn beta.
+  intros a s n [Hinv ->]. split; [exact Hinv|]. split; [apply shrinks_refl|auto].
+Qed.
+(** [try f] followed by a continuation that goes on (or gives up) after an error *)
+Lemma sync_spec_try {A B} nf oc s0 (f : M A) (k1 : A -> M B) (k2 : M B) (G1 G2 G : list pod -> Prop) :
+  sync_spec nf oc s0 f G1 ->
+  (forall a s1, shrinks s0 s1 -> sync_spec nf oc s1 (k1 a) G2) ->
+  (k2 = fail \/ forall s1, shrinks s0 s1 -> sync_spec nf oc s1 k2 G2) ->
+  (forall s1 s2, shrinks s0 s1 -> shrinks s1 s2 -> G1 s1 -> G2 s2 -> G s2) ->
+  sync_spec nf oc s0 (x <- try f ;; match x with Some a => k1 a | None => k2 end) G.
+Proof.
+  intros Hf Hk1 Hk2 HG. unfold sync_spec in *.
+  hb; [apply h_try; exact Hf|]. destruct a as [a|]; cbn beta.
+  - apply h_name. intros s1 n1 [Hinv1 [Hs1 HG1]].
+    eapply h_conseq; [apply (Hk1 a s1 Hs1)| | |]; cbn beta.
+    + intros s n [-> ->]. auto.
+    + intros b s n [Hinv [Hs HG2]]. split; [exact Hinv|]. split; [eapply shrinks_trans; eauto|].
+      intros Hnf. eapply HG; eauto.
+    + intros s n [Hnf [Hinv Hs]]. split; [exact Hnf|]. split; [exact Hinv|]. eapply shrinks_trans; eauto.
+  - destruct Hk2 as [->|Hk2]; [apply h_fail'; auto|].
+    apply h_name. intros s1 n1 [Hnf1 [Hinv1 Hs1]].
+    eapply h_conseq; [apply (Hk2 s1 Hs1)| | |]; cbn beta.
+    + intros s n [-> ->]. auto.
+    + intros b s n [Hinv [Hs HG2]]. split; [exact Hinv|]. split; [eapply shrinks_trans; eauto|].
+      intros Hnf. congruence.
+    + intros s n [Hnf [Hinv Hs]]. split; [exact Hnf|]. split; [exact Hinv|]. eapply shrinks_trans; eauto.
+Qed.
+
+Lemma h_api_delete_res_nf nf i (Q : unit -> SP) (E : SP) :
+  hoareF nf (fun s n => E s n /\ Q tt (del_res i s) n) (api_delete_res i) Q (fun s n => nf = false /\ E s n).
+Proof.
+  unfold api_delete_res. hb; [eapply h_exit; [|apply h_tick]|].
+  - intros s n [H1 [H2 _]]. auto.
+  - hb; [apply h_get_store|]. intros w Hnf [[_ HQ] ->]. cbn. auto.
+Qed.
 
 Lemma h_sync_for_pods_A nf oc g s0 :
   sync_spec nf oc s0 (sync_for_pods (listed g s0)) (noleak g).
 Proof.
-  unfold sync_spec, sync_for_pods.
+  unfold sync_for_pods.
   destruct (filter (fun p => negb (p_res p) && live_phase (p_phase p)) (listed g s0)) as [|x t] eqn:Ef;
     destruct (last_res (listed g s0)) as [r|] eqn:El.
   - (* no live consumer, a reservation pod: delete it *)
-    eapply h_exit with (E := fun s n => nf = false /\ (inv true oc s n /\ s = s0)).
-    { intros s n [H1 [H2 ->]]. split; [exact H1|]. split; [exact H2|apply shrinks_refl]. }
-    eapply h_pre; [|eapply h_exit; [|apply (h_api_delete_res nf (p_id r)
+    unfold sync_spec.
+    eapply h_pre; [|apply (h_api_delete_res_nf nf (p_id r)
         (fun _ s n => inv true oc s n /\ shrinks s0 s /\ (nf = true -> noleak g s))
-        (fun s n => inv true oc s n /\ s = s0))]].
-    + intros s n [Hinv ->]. split; [auto|].
-      assert (Hg : del_guard (p_id r) s0) by (destruct Hinv as [B _]; eapply sync_del_guard; eauto).
-      split; [apply inv_del_res; auto|]. split; [apply shrinks_del_res|].
-      intros _ Hr. exfalso. apply has_res_iff in Hr. destruct Hr as [r' [H1 [H2 H3]]].
-      apply del_res_In in H1. destruct H1 as [H1 Hid].
-      destruct Hinv as [B _]. apply last_res_Some in El. destruct El as [Hin Hres].
+        (fun s n => inv true oc s n /\ shrinks s0 s))].
+    intros s n [Hinv ->]. split; [split; [exact Hinv|apply shrinks_refl]|].
+    assert (Hg : del_guard (p_id r) s0) by (destruct Hinv as [B _]; eapply sync_del_guard; eauto).
+    split; [apply inv_del_res; auto|]. split; [apply shrinks_del_res|].
+    intros _ Hr. exfalso. apply has_res_iff in Hr. destruct Hr as [r' [H1 [H2 H3]]].
+    apply del_res_In in H1. destruct H1 as [H1 Hid].
+    destruct Hinv as [B _]. apply last_res_Some in El. destruct El as [Hin Hres].
+    destruct (listed_res g s0 n r B Hin Hres) as [Hrs Hrp].
+    assert (r' = r).
+    { apply (amo_unique s0 g); [apply (ib_amo _ _ B)| |]; apply res_of_In; auto. }
+    subst r'. unfold is_resid in Hid. rewrite Hres, Pos.eqb_refl in Hid. discriminate.
+  - (* nothing listed that matters *)
+    apply sync_spec_ret. intros n Hinv Hr. exfalso.
+    apply has_res_iff in Hr. destruct Hr as [r [H1 [H2 H3]]].
+    apply (last_res_some_of (listed g s0) r); auto. apply listed_carrier; [exact H1|left; exact H3].
+  - (* live consumers and a reservation pod *)
+    apply sync_spec_ret. intros n Hinv _.
+    assert (Hx : In x (filter (fun p => negb (p_res p) && live_phase (p_phase p)) (listed g s0)))
+      by (rewrite Ef; left; reflexivity).
+    apply filter_In in Hx. destruct Hx as [Hx1 Hx2]. apply andb_true_iff in Hx2. destruct Hx2 as [Hx2 Hx3].
+    apply negb_true_iff in Hx2. apply listed_In in Hx1. destruct Hx1 as [Hx1 Hx4].
+    exists x. auto.
+  - (* live consumers without reservation pod: impossible here *)
+    unfold sync_spec. eapply h_pre; [|apply h_pre_false]. intros s n [Hinv ->].
+    assert (Hx : In x (filter (fun p => negb (p_res p) && live_phase (p_phase p)) (listed g s0)))
+      by (rewrite Ef; left; reflexivity).
+    apply filter_In in Hx. destruct Hx as [Hx1 Hx2]. apply andb_true_iff in Hx2. destruct Hx2 as [Hx2 Hx3].
+    apply negb_true_iff in Hx2. apply listed_In in Hx1. destruct Hx1 as [Hx1 Hx4].
+    destruct Hinv as [_ [F _]]. destruct (F eq_refl) as [I2 _].
+    pose proof (I2 x g Hx1 Hx2 Hx3 Hx4) as Hr. apply has_res_iff in Hr. destruct Hr as [r [H1 [H2 H3]]].
+    apply (last_res_some_of (listed g s0) r); auto. apply listed_carrier; [exact H1|left; exact H3].
+Qed.
+
+Lemma h_sync_group_A nf oc g s0 : sync_spec nf oc s0 (sync_group g) (noleak g).
+Proof.
+  unfold sync_spec, sync_group.
+  hb; [eapply h_exit; [|apply h_api_list]|].
+  { intros s n [H1 [H2 ->]]. split; [exact H1|]. split; [exact H2|apply shrinks_refl]. }
+  rename a into l1.
+  hb; [eapply h_exit; [|apply h_api_list]|].
+  { intros s n [H1 [[H2 ->] _]]. split; [exact H1|]. split; [exact H2|apply shrinks_refl]. }
+  rename a into l2.
+  apply h_name. intros s1 n1 [[[Hinv Es] El1] El2]. subst s1 l1 l2.
+  eapply h_pre; [|apply (h_sync_for_pods_A nf oc g s0)]. intros s n [-> ->]. auto.
+Qed.
+
+Lemma h_sync_each_A nf oc stop gs : forall s0,
+  sync_spec nf oc s0 (sync_each stop gs) (fun s => forall g, In g gs -> noleak g s).
+Proof.
+  induction gs as [|g r IH]; intros s0; cbn [sync_each].
+  - apply sync_spec_ret. intros n _ g [].
+  - apply (sync_spec_try nf oc s0 (sync_group g) (fun _ => sync_each stop r)
+                         (if stop then fail else sync_each stop r) (noleak g)
+                         (fun s => forall g', In g' r -> noleak g' s)).
+    + apply h_sync_group_A.
+    + intros _ s1 _. apply IH.
+    + destruct stop; [left; reflexivity|right; intros s1 _; apply IH].
+    + intros s1 s2 _ Hs H1 H2 g' [<-|Hin]; [eapply noleak_shrinks; eauto|auto].
+Qed.
+
+Lemma h_sync_pods_list_A nf oc l s0 :
+  sync_spec nf oc s0 (sync_pods_list l)
+            (fun s => forall g, In g (flat_map get_gpu_groups l) -> noleak g s).
+Proof.
+  unfold sync_pods_list.
+  eapply (sync_spec_seq nf oc s0 pop_ord _ (fun _ => True)
+                        (fun s => forall g, In g (flat_map get_gpu_groups l) -> noleak g s) _).
+  - apply sync_spec_frame. intros P E. apply h_pop_ord.
+  - intros o s1 _. eapply sync_spec_weaken; [|apply h_sync_each_A]. cbn beta.
+    intros s _ H g Hg. apply H. apply order_by_In, dedup_In. exact Hg.
+  - cbn beta. auto.
+Qed.
+
+Lemma h_listed_then {A} nf oc s0 flt (k : list pod -> M A) G :
+  (sync_spec nf oc s0 (k (filter flt s0)) G) -> sync_spec nf oc s0 (l <- api_list flt ;; k l) G.
+Proof.
+  intros Hk. unfold sync_spec in *.
+  hb; [eapply h_exit; [|apply h_api_list]|].
+  { intros s n [H1 [H2 ->]]. split; [exact H1|]. split; [exact H2|apply shrinks_refl]. }
+  apply h_name. intros s1 n1 [[Hinv Es] El]. subst s1 a. eapply h_pre; [|exact Hk]. intros s n [-> ->]. auto.
+Qed.
+
+Lemma get_gpu_groups_In p g : In g (get_gpu_groups p) <-> carries p g.
+Proof.
+  unfold get_gpu_groups, plain_list, carries. rewrite in_app_iff.
+  destruct (p_plain p) as [x|]; cbn; split; intros [H|H]; auto.
+  - destruct H as [<-|[]]. auto.
+  - injection H as ->. auto.
+  - contradiction.
+  - discriminate.
+Qed.
+
+(** start-up Sync: afterwards no reservation pod is left without a live consumer *)
+Lemma h_sync_all_A nf oc s0 : sync_spec nf oc s0 sync_all (fun s => forall g, noleak g s).
+Proof.
+  unfold sync_all. apply h_listed_then.
+  eapply sync_spec_weaken; [|apply h_sync_pods_list_A]. cbn beta.
+  intros s Hs H g Hr. apply (H g); [|exact Hr].
+  pose proof (has_res_shrinks _ _ _ Hs Hr) as Hr0. apply has_res_iff in Hr0. destruct Hr0 as [r [H1 [H2 H3]]].
+  apply in_flat_map. exists r. split.
+  - apply filter_In. split; [exact H1|]. unfold labelled. rewrite H3. reflexivity.
+  - apply get_gpu_groups_In. left. exact H3.
+Qed.
+
+(** SyncForNode n: the same for the reservation pods that sit on node n *)
+Definition node_clean (nd : node) (s : list pod) : Prop :=
+  forall r g, In r s -> p_res r = true -> on_node nd r = true -> p_plain r = Some g -> live_carrier s g.
+Lemma h_sync_node_A nf oc nd s0 : sync_spec nf oc s0 (sync_node nd) (node_clean nd).
+Proof.
+  unfold sync_node. apply h_listed_then.
+  eapply sync_spec_weaken; [|apply h_sync_pods_list_A]. cbn beta.
+  intros s Hs H r g Hr Hres Hn Hpl. apply (H g).
+  - apply in_flat_map. exists r. split.
+    + apply filter_In. split; [apply (proj2 Hs); exact Hr|]. unfold labelled. rewrite Hpl, Hn. reflexivity.
+    + apply get_gpu_groups_In. left. exact Hpl.
+  - apply has_res_iff. exists r. auto.
+Qed.
+
+Lemma h_sync_if_needed_A nf oc o p s0 :
+  sync_spec nf oc s0 (sync_if_needed o p) (fun s => forall g, carries p g -> noleak g s).
+Proof.
+  unfold sync_if_needed. eapply sync_spec_weaken; [|apply h_sync_each_A]. cbn beta.
+  intros s _ H g Hc. apply H. apply get_gpu_groups_In in Hc. unfold get_gpu_groups in Hc.
+  apply in_app_or in Hc. apply in_or_app. destruct Hc as [Hc|Hc]; [left; exact Hc|right].
+  apply order_by_In. exact Hc.
+Qed.
+Lemma h_on_pod_delete_A nf oc p s0 :
+  sync_spec nf oc s0 (on_pod_delete p) (fun s => forall g, carries p g -> noleak g s).
+Proof.
+  unfold on_pod_delete.
+  eapply (sync_spec_seq nf oc s0 pop_ord _ (fun _ => True)
+                        (fun s => forall g, carries p g -> noleak g s) _).
+  - apply sync_spec_frame. intros P E. apply h_pop_ord.
+  - intros o s1 _. apply h_sync_if_needed_A.
+  - cbn beta. auto.
+Qed.
+Lemma h_on_pod_update_A nf oc ph p s0 :
+  sync_spec nf oc s0 (on_pod_update ph p) (fun s => completed ph = true -> forall g, carries p g -> noleak g s).
+Proof.
+  unfold on_pod_update.
+  eapply (sync_spec_seq nf oc s0 pop_ord _ (fun _ => True)
+                        (fun s => completed ph = true -> forall g, carries p g -> noleak g s) _).
+  - apply sync_spec_frame. intros P E. apply h_pop_ord.
+  - intros o s1 _. destruct (completed ph).
+    + eapply sync_spec_weaken; [|apply h_sync_if_needed_A]. cbn beta. auto.
+    + apply sync_spec_ret. intros n _. discriminate.
+  - cbn beta. auto.
+Qed.
+Lemma h_on_br_delete_A nf oc gs s0 :
+  sync_spec nf oc s0 (on_br_delete gs) (fun s => forall g, In g gs -> noleak g s).
+Proof. apply h_sync_each_A. Qed.
+
+Lemma h_drain_A nf oc fuel : forall s0, sync_spec nf oc s0 (drain fuel) (fun _ => True).
+Proof.
+  induction fuel as [|f IH]; intros s0; cbn [drain]; [apply sync_spec_ret; auto|].
+  eapply (sync_spec_seq nf oc s0 pop_pend _ (fun _ => True) (fun _ => True) _).
+  - apply sync_spec_frame. intros P E. apply h_pop_pend.
+  - intros [[p b]|] s1 _; [|apply sync_spec_ret; auto].
+    eapply (sync_spec_seq nf oc s1 _ _ (fun _ => True) (fun _ => True) _).
+    + eapply sync_spec_weaken; [|apply h_on_pod_delete_A]. auto.
+    + intros _ s2 _. eapply (sync_spec_seq nf oc s2 _ _ (fun _ => True) (fun _ => True) _).
+      * destruct b; [eapply sync_spec_weaken; [|apply h_on_br_delete_A]; auto|apply sync_spec_ret; auto].
+      * intros _ s3 _. apply IH.
+      * auto.
+    + auto.
+  - auto.
+Qed.
+
+(** ** events followed by the delivery of the watch events they caused *)
+Lemma h_exec_prog_A nf st fuel (P : SP) (G : list pod -> Prop) :
+  (forall s1 s2, shrinks s1 s2 -> G s1 -> G s2) ->
+  hoareF nf P (run_event (s_ev st))
+         (fun _ s n => inv true None s n /\ (nf = true -> G s)) (fun s n => nf = false /\ inv true None s n) ->
+  hoareF nf P (exec_prog st fuel)
+         (fun _ s n => inv true None s n /\ (nf = true -> G s)) (fun s n => nf = false /\ inv true None s n).
+Proof.
+  intros HG He. unfold exec_prog.
+  hb; [apply h_try; exact He|]. destruct a as [u|]; cbn beta.
+  - apply h_name. intros s1 n1 [Hinv1 HG1].
+    eapply h_conseq; [apply (h_drain_A nf None fuel s1)| | |]; cbn beta.
+    + intros s n [-> ->]. auto.
+    + intros u' s n [Hinv [Hs _]]. split; [exact Hinv|]. intros Hnf. eapply HG; eauto.
+    + intros s n [Hnf [Hinv _]]. auto.
+  - apply h_name. intros s1 n1 [Hnf1 Hinv1].
+    destruct (exits_on_error (s_ev st)); [apply h_fail'; intros s n [-> ->]; auto|].
+    hb; [eapply h_conseq; [apply (h_drain_A nf None fuel s1)| | |]|]; cbn beta.
+    + intros s n [-> ->]. auto.
+    + intros u' s n H. exact H.
+    + intros s n [Hnf [Hinv _]]. auto.
+    + apply h_fail'. intros s n [Hinv _]. auto.
+Qed.
+
+Definition quiet_step (e : event) (ord : list (list group)) (dp : list (option gidx)) : step :=
+  mkStep e no_faults ord dp.
+
+(** running a fault-free step from a state that satisfies the precondition of a triple *)
+Lemma run_quiet e ord dp s (G : list pod -> Prop) :
+  hoareF true (fun st n => st = ps_store s /\ n = ps_next s)
+         (exec_prog (quiet_step e ord dp) (S (length (ps_store s))))
+         (fun _ st n => inv true None st n /\ (true = true -> G st)) (fun st n => true = false /\ inv true None st n) ->
+  exists w', exec_world (quiet_step e ord dp) s = (Ok tt, w')
+             /\ inv true None (w_store w') (w_next w') /\ G (w_store w').
+Proof.
+  intros H. rewrite exec_world_eq.
+  specialize (H (start_world (quiet_step e ord dp) s) (fun _ => eq_refl) (conj eq_refl eq_refl)).
+  destruct (exec_prog _ _ _) as [[[]| |] w'].
+  - exists w'. destruct H as [[H1 H2] _]. auto.
+  - destruct H as [[H _] _]. discriminate.
+  - destruct H as [[H _] _]. discriminate.
+Qed.
+
+Lemma exact_of_noleak s n oc g : inv true oc s n -> noleak g s -> exact_for s g.
+Proof.
+  intros [_ [F _]] Hn. destruct (F eq_refl) as [I2 _]. split; [exact Hn|].
+  intros [p [Hp [Hr [Hl Hc]]]]. exact (I2 p g Hp Hr Hl Hc).
+Qed.
+Lemma no_orphan_of_inv s n oc : inv true oc s n -> no_running_orphan s.
+Proof.
+  intros [_ [F _]] g [p [Hp [Hr [Hph Hc]]]]. destruct (F eq_refl) as [I2 _].
+  apply (I2 p g Hp Hr); [|exact Hc]. unfold live. rewrite Hph. reflexivity.
+Qed.
+
+(** start-up Sync after ANY tamper-free history (faults and crashes included) *)
+Theorem startup_sync_exact cs h ord dp :
+  tamper_free h ->
+  exists w', exec_world (quiet_step EvRestart ord dp) (exec h (init_state cs)) = (Ok tt, w')
+             /\ (forall g, exact_for (w_store w') g)
+             /\ no_running_orphan (w_store w') /\ at_most_one (w_store w').
+Proof.
+  intros Ht. pose proof (reach_full cs h Ht) as Hinv. set (s := exec h (init_state cs)) in *.
+  destruct (run_quiet EvRestart ord dp s (fun st => forall g, noleak g st)) as [w' [He [Hi HG]]].
+  - apply h_exec_prog_A.
+    + intros s1 s2 Hs H g. eapply noleak_shrinks; eauto.
+    + cbn [quiet_step s_ev run_event].
+      eapply h_conseq; [apply (h_sync_all_A true None (ps_store s))| | |]; cbn beta.
+      * intros st n [-> ->]. auto.
+      * intros u st n [H1 [_ H3]]. auto.
+      * intros st n [H1 [H2 _]]. auto.
+  - exists w'. split; [exact He|]. split; [|split].
+    + intros g. eapply exact_of_noleak; eauto.
+    + eapply no_orphan_of_inv; eauto.
+    + destruct Hi as [B _]. exact (ib_amo _ _ B).
+Qed.
+
+Lemma node_clean_shrinks nd s1 s2 : shrinks s1 s2 -> node_clean nd s1 -> node_clean nd s2.
+Proof.
+  intros Hs H r g Hr Hres Hn Hpl. apply (live_carrier_shrinks s1 s2 g Hs).
+  apply (H r g); auto. apply (proj2 Hs). exact Hr.
+Qed.
+
+(** the next bind on node n (SyncForNode n) after any tamper-free history *)
+Theorem node_sync_clean cs h nd ord dp :
+  tamper_free h ->
+  exists w', exec_world (quiet_step (EvNodeSync nd) ord dp) (exec h (init_state cs)) = (Ok tt, w')
+             /\ node_clean nd (w_store w').
+Proof.
+  intros Ht. pose proof (reach_full cs h Ht) as Hinv. set (s := exec h (init_state cs)) in *.
+  destruct (run_quiet (EvNodeSync nd) ord dp s (node_clean nd)) as [w' [He [Hi HG]]].
+  - apply h_exec_prog_A; [apply node_clean_shrinks|].
+    cbn [quiet_step s_ev run_event].
+    eapply h_conseq; [apply (h_sync_node_A true None nd (ps_store s))| | |]; cbn beta.
+    + intros st n [-> ->]. auto.
+    + intros u st n [H1 [_ H3]]. auto.
+    + intros st n [H1 [H2 _]]. auto.
+  - exists w'. auto.
+Qed.
+
+(** the pod controller's update handler when a consumer completes *)
+Lemma inv_advance full s n c ph : inv full None s n -> inv full None (upd_consumer c (advance ph) s) n.
+Proof.
+  intros H. apply inv_upd_shrink; [apply keeps_advance| | |apply live_advance|exact H].
+  - intros q. unfold advance. destruct (Nat.ltb _ _); reflexivity.
+  - intros q g. unfold advance. destruct (Nat.ltb _ _); auto.
+Qed.
+
+Theorem completion_handler_exact cs h c ph p ord dp :
+  tamper_free h ->
+  find_consumer c (ps_store (exec h (init_state cs))) = Some p ->
+  phase_rank (p_phase p) < phase_rank ph -> completed ph = true ->
+  exists w', exec_world (quiet_step (EvPhase c ph) ord dp) (exec h (init_state cs)) = (Ok tt, w')
+             /\ forall g, carries p g -> exact_for (w_store w') g.
+Proof.
+  intros Ht Hf Hrk Hc. pose proof (reach_full cs h Ht) as Hinv. set (s := exec h (init_state cs)) in *.
+  destruct (run_quiet (EvPhase c ph) ord dp s (fun st => forall g, carries p g -> noleak g st)) as [w' [He [Hi HG]]].
+  - apply h_exec_prog_A.
+    + intros s1 s2 Hs H g Hg. eapply noleak_shrinks; eauto.
+    + cbn [quiet_step s_ev run_event]. intros w Hnf [Hs Hn]. unfold do_phase. rewrite Hs, Hf.
+      apply Nat.ltb_lt in Hrk. rewrite Hrk.
+      set (w1 := set_store _ w).
+      assert (H1 : inv true None (w_store w1) (w_next w1) /\ w_store w1 = w_store w1).
+      { split; [|reflexivity]. cbn. rewrite Hn. apply inv_advance. exact Hinv. }
+      pose proof (h_on_pod_update_A true None ph (with_phase ph p) (w_store w1) w1 Hnf H1) as Hu.
+      destruct (on_pod_update ph (with_phase ph p) w1) as [[u| |] w2].
+      * destruct Hu as [[Hu1 [_ Hu3]] Hfl]. split; [|exact Hfl]. split; [exact Hu1|].
+        intros _ g Hg. apply (Hu3 eq_refl Hc g). exact Hg.
+      * destruct Hu as [[Hu1 [Hu2 _]] Hfl]. auto.
+      * destruct Hu as [[Hu1 [Hu2 _]] Hfl]. auto.
+  - exists w'. split; [exact He|]. intros g Hg. eapply exact_of_noleak; eauto.
+Qed.
+
+(** the pod controller's delete handler, then the handler of the collected BindRequest *)
+Definition after_delete (p : pod) (b : option (list group)) (fuel : nat) : M unit :=
+  on_pod_delete p ;;; (match b with Some gs => on_br_delete gs | None => ret tt end) ;;; drain fuel.
+
+Lemma exec_delete_unfold c p fl ord dp s :
+  find_consumer c (ps_store s) = Some p ->
+  exec_world (mkStep (EvDelete c) fl ord dp) s =
+  after_delete p (br_get c (ps_brs s)) (length (ps_store s))
+               (mkW (del_consumer c (ps_store s)) (ps_next s) (br_del c (ps_brs s)) 0 [] fl ord dp None []).
+Proof.
+  intros Hf. unfold exec_world, run_event, s_ev, do_delete, bind, try, remove_consumer, start_world.
+  cbn [w_store w_brs w_pend]. rewrite Hf. cbn. reflexivity.
+Qed.
+
+Theorem deletion_handler_exact cs h c p ord dp :
+  tamper_free h ->
+  find_consumer c (ps_store (exec h (init_state cs))) = Some p ->
+  exists w', exec_world (quiet_step (EvDelete c) ord dp) (exec h (init_state cs)) = (Ok tt, w')
+             /\ forall g, (carries p g \/ exists gs, br_get c (ps_brs (exec h (init_state cs))) = Some gs /\ In g gs) ->
+                          exact_for (w_store w') g.
+Proof.
+  intros Ht Hf. pose proof (reach_full cs h Ht) as Hinv. set (s := exec h (init_state cs)) in *.
+  unfold quiet_step. rewrite (exec_delete_unfold c p no_faults ord dp s Hf).
+  set (b := br_get c (ps_brs s)). set (w1 := mkW _ _ _ _ _ _ _ _ _ _).
+  set (G := fun st => forall g, (carries p g \/ exists gs, b = Some gs /\ In g gs) -> noleak g st).
+  assert (Hspec : sync_spec true None (w_store w1) (after_delete p b (length (ps_store s))) G).
+  { unfold after_delete.
+    eapply (sync_spec_seq true None _ _ _ (fun st => forall g, carries p g -> noleak g st)
+                          (fun st => forall g, (exists gs, b = Some gs /\ In g gs) -> noleak g st) G).
+    - apply h_on_pod_delete_A.
+    - intros _ s1 _.
+      eapply (sync_spec_seq true None _ _ _ (fun st => forall g, (exists gs, b = Some gs /\ In g gs) -> noleak g st)
+                            (fun _ => True) _).
+      + destruct b as [gs|].
+        * eapply sync_spec_weaken; [|apply h_on_br_delete_A]. cbn beta.
+          intros st _ H g [gs' [E Hin]]. injection E as <-. auto.
+        * apply sync_spec_ret. intros n _ g [gs' [E _]]. discriminate.
+      + intros _ s2 _. apply h_drain_A.
+      + cbn beta. intros s2 s3 _ Hs H _. intros g Hg. eapply noleak_shrinks; eauto.
+    - unfold G. intros s1 s2 _ Hs H1 H2 g [Hg|Hg]; [eapply noleak_shrinks; eauto|auto]. }
+  assert (H1 : inv true None (w_store w1) (w_next w1) /\ w_store w1 = w_store w1).
+  { split; [|reflexivity]. cbn. apply inv_filter; [|exact Hinv].
+    intros q Hq. unfold is_consumer. rewrite Hq. reflexivity. }
+  specialize (Hspec w1 (fun _ => eq_refl) H1).
+  destruct (after_delete p b (length (ps_store s)) w1) as [[[]| |] w'].
+  - exists w'. split; [reflexivity|]. destruct Hspec as [[Hi [_ HG]] _].
+    intros g Hg. eapply exact_of_noleak; [exact Hi|]. apply (HG eq_refl). exact Hg.
+  - destruct Hspec as [[Hx _] _]. discriminate.
+  - destruct Hspec as [[Hx _] _]. discriminate.
+Qed.
+
+(** ** 6b. Histories in which reservation pods vanish behind the binder's back:
+    a fault-free sync of g that goes through leaves no RUNNING pod attached to g
+    without reservation; start-up Sync visits the groups of the pods that carry
+    the plain label. *)
+Definition orphan_free_for (g : group) (s : list pod) : Prop := has_res s g \/ ~ running_carrier s g.
+(** pods only removed, and no group loses "reserved or without running pod" *)
+Definition ofpres (s0 s : list pod) : Prop :=
+  (forall p, In p s -> In p s0) /\ (forall g, orphan_free_for g s0 -> orphan_free_for g s).
+Lemma ofpres_refl s : ofpres s s.
+Proof. split; auto. Qed.
+Lemma ofpres_trans a b c : ofpres a b -> ofpres b c -> ofpres a c.
+Proof. intros [H1 H2] [H3 H4]. split; auto. Qed.
+
+Lemma running_is_live s g : running_carrier s g -> live_carrier s g.
+Proof. intros [p [H1 [H2 [H3 H4]]]]. exists p. unfold live. rewrite H3. auto. Qed.
+Lemma running_carrier_sub s0 s g : (forall p, In p s -> In p s0) -> running_carrier s g -> running_carrier s0 g.
+Proof. intros H [p [H1 H2]]. exists p. auto. Qed.
+
+Lemma ofpres_del_consumer c s : ofpres s (del_consumer c s).
+Proof.
+  split; [intros p Hp; apply del_consumer_In in Hp; tauto|].
+  intros g [Hr|Hn].
+  - left. apply has_res_iff in Hr. destruct Hr as [r [H1 [H2 H3]]]. apply has_res_iff. exists r.
+    split; [|auto]. apply del_consumer_In. split; [exact H1|]. unfold is_consumer. rewrite H2. reflexivity.
+  - right. intros Hc. apply Hn. eapply running_carrier_sub; [|exact Hc]. intros p Hp. apply del_consumer_In in Hp. tauto.
+Qed.
+Lemma ofpres_del_res i s g0 :
+  (forall r, In r s -> is_resid i r = true -> p_plain r = Some g0) -> ~ live_carrier s g0 ->
+  ofpres s (del_res i s).
+Proof.
+  intros Hg Hn. split; [intros p Hp; apply del_res_In in Hp; tauto|].
+  assert (Hsub : forall p, In p (del_res i s) -> In p s) by (intros p Hp; apply del_res_In in Hp; tauto).
+  intros g [Hr|Hnr].
+  - destruct (Pos.eq_dec g g0) as [->|Hne].
+    + right. intros Hc. apply Hn. apply running_is_live. eapply running_carrier_sub; eauto.
+    + left. apply has_res_iff in Hr. destruct Hr as [r [H1 [H2 H3]]]. apply has_res_iff. exists r.
+      split; [|auto]. apply del_res_In. split; [exact H1|].
+      destruct (is_resid i r) eqn:E; [|reflexivity]. rewrite (Hg r H1 E) in H3. congruence.
+  - right. intros Hc. apply Hnr. eapply running_carrier_sub; eauto.
+Qed.
+
+Definition tsync_spec {A} (oc : option pid) (s0 : list pod) (f : M A) (G : list pod -> Prop) : Prop :=
+  hoareF true (fun s n => inv false oc s n /\ s = s0) f
+         (fun _ s n => inv false oc s n /\ ofpres s0 s /\ G s)
+         (fun s n => inv false oc s n /\ ofpres s0 s).
+
+Lemma tsync_seq {A B} oc s0 (f : M A) (k : A -> M B) (G1 G2 G : list pod -> Prop) :
+  tsync_spec oc s0 f G1 ->
+  (forall a s1, ofpres s0 s1 -> tsync_spec oc s1 (k a) G2) ->
+  (forall s1 s2, ofpres s0 s1 -> ofpres s1 s2 -> G1 s1 -> G2 s2 -> G s2) ->
+  tsync_spec oc s0 (bind f k) G.
+Proof.
+  intros Hf Hk HG. unfold tsync_spec in *. hb; [exact Hf|].
+  apply h_name. intros s1 n1 [Hinv1 [Hs1 HG1]].
+  eapply h_conseq; [apply (Hk a s1 Hs1)| | |]; cbn beta.
+  - intros s n [-> ->]. auto.
+  - intros b s n [Hinv [Hs HG2]]. split; [exact Hinv|]. split; [eapply ofpres_trans; eauto|eapply HG; eauto].
+  - intros s n [Hinv Hs]. split; [exact Hinv|]. eapply ofpres_trans; eauto.
+Qed.
+Lemma tsync_weaken {A} oc s0 (f : M A) (G G' : list pod -> Prop) :
+  (forall s, ofpres s0 s -> G s -> G' s) -> tsync_spec oc s0 f G -> tsync_spec oc s0 f G'.
+Proof.
+  intros H Hf. unfold tsync_spec in *. eapply h_post; [|exact Hf]. cbn beta.
+  intros a s n [H1 [H2 H3]]. auto.
+Qed.
+Lemma tsync_ret {A} oc s0 (a : A) (G : list pod -> Prop) :
+  (forall n, inv false oc s0 n -> G s0) -> tsync_spec oc s0 (ret a) G.
+Proof.
+  intros H. unfold tsync_spec. intros w Hnf [Hinv Hs]. subst s0. cbn. split; [|reflexivity].
+  split; [exact Hinv|]. split; [apply ofpres_refl|eapply H; eauto].
+Qed.
+Lemma tsync_frame {A} oc s0 (f : M A) :
+  (forall P E, hoareF true P f (fun _ => P) E) -> tsync_spec oc s0 f (fun _ => True).
+Proof.
+  intros H. unfold tsync_spec. eapply h_post; [|apply H]. cbn beta.
+  intros a s n [Hinv ->]. split; [exact Hinv|]. split; [apply ofpres_refl|auto].
+Qed.
+(** after an error the caller either gives up or goes on; what the failed part
+    would have established is then not claimed *)
+Lemma tsync_try {A B} oc s0 (f : M A) (k1 : A -> M B) (k2 : M B) (G1 G2 G : list pod -> Prop) :
+  tsync_spec oc s0 f G1 ->
+  (forall a s1, ofpres s0 s1 -> tsync_spec oc s1 (k1 a) G2) ->
+  (k2 = fail \/ (forall s1, ofpres s0 s1 -> tsync_spec oc s1 k2 (fun _ => True)) /\ forall s, G s) ->
+  (forall s1 s2, ofpres s0 s1 -> ofpres s1 s2 -> G1 s1 -> G2 s2 -> G s2) ->
+  tsync_spec oc s0 (x <- try f ;; match x with Some a => k1 a | None => k2 end) G.
+Proof.
+  intros Hf Hk1 Hk2 HG. unfold tsync_spec in *.
+  hb; [apply h_try; exact Hf|]. destruct a as [a|]; cbn beta.
+  - apply h_name. intros s1 n1 [Hinv1 [Hs1 HG1]].
+    eapply h_conseq; [apply (Hk1 a s1 Hs1)| | |]; cbn beta.
+    + intros s n [-> ->]. auto.
+    + intros b s n [Hinv [Hs HG2]]. split; [exact Hinv|]. split; [eapply ofpres_trans; eauto|eapply HG; eauto].
+    + intros s n [Hinv Hs]. split; [exact Hinv|]. eapply ofpres_trans; eauto.
+  - destruct Hk2 as [->|[Hk2 HGall]]; [apply h_fail'; auto|].
+    apply h_name. intros s1 n1 [Hinv1 Hs1].
+    eapply h_conseq; [apply (Hk2 s1 Hs1)| | |]; cbn beta.
+    + intros s n [-> ->]. auto.
+    + intros b s n [Hinv [Hs _]]. split; [exact Hinv|]. split; [eapply ofpres_trans; eauto|apply HGall].
+    + intros s n [Hinv Hs]. split; [exact Hinv|]. eapply ofpres_trans; eauto.
+Qed.
+
+Definition gone (c : pid) (s : list pod) : Prop := forall q, In q s -> is_consumer c q = false.
+
+Lemma h_delete_non_reserved_T oc l : forall s0,
+  tsync_spec oc s0 (delete_non_reserved l)
+             (fun s => forall p, In p l -> p_phase p = Running -> gone (p_id p) s).
+Proof.
+  induction l as [|p r IH]; intros s0; cbn [delete_non_reserved].
+  - apply tsync_ret. intros n _ p [].
+  - assert (Hskip : p_phase p <> Running ->
+                    tsync_spec oc s0 (delete_non_reserved r)
+                               (fun s => forall q, In q (p :: r) -> p_phase q = Running -> gone (p_id q) s)).
+    { intros Hne. eapply tsync_weaken; [|apply IH]. cbn beta. intros s _ H q [<-|Hq] Hq'; [contradiction|auto]. }
+    destruct (p_phase p) eqn:Eph; try (apply Hskip; discriminate).
+    eapply (tsync_seq oc s0 _ _ (gone (p_id p)) (fun s => forall q, In q r -> p_phase q = Running -> gone (p_id q) s) _).
+    + unfold tsync_spec. eapply h_pre; [|apply h_api_delete_consumer]. intros s n [Hinv ->].
+      split; [split; [exact Hinv|apply ofpres_refl]|].
+      split; [apply inv_filter; [|exact Hinv]; intros q Hq; unfold is_consumer; rewrite Hq; reflexivity|].
+      split; [apply ofpres_del_consumer|]. intros q Hq. apply del_consumer_In in Hq. tauto.
+    + intros _ s1 _. apply IH.
+    + cbn beta. intros s1 s2 _ [Hsub _] H1 H2 q [<-|Hq] Hq'; [|auto].
+      intros x Hx. apply H1. auto.
+Qed.
+
+Lemma h_sync_for_pods_T oc g s0 :
+  tsync_spec oc s0 (sync_for_pods (listed g s0)) (orphan_free_for g).
+Proof.
+  unfold sync_for_pods.
+  destruct (filter (fun p => negb (p_res p) && live_phase (p_phase p)) (listed g s0)) as [|x t] eqn:Ef;
+    destruct (last_res (listed g s0)) as [r|] eqn:El.
+  - unfold tsync_spec. eapply h_pre; [|apply h_api_delete_res]. intros s n [Hinv ->].
+    split; [split; [exact Hinv|apply ofpres_refl]|].
+    pose proof (no_frac_no_carrier g s0 Ef) as Hnl.
+    assert (Hgrp : forall r', In r' s0 -> is_resid (p_id r) r' = true -> p_plain r' = Some g).
+    { intros r' Hr' Hid. destruct Hinv as [B _]. apply last_res_Some in El. destruct El as [Hin Hres].
       destruct (listed_res g s0 n r B Hin Hres) as [Hrs Hrp].
-      assert (r' = r).
-      { apply (amo_unique s0 g); [apply (ib_amo _ _ B)| |]; apply res_of_In; auto. }
-      subst r'. unfold is_resid in Hid. rewrite Hres, Pos.eqb_refl in Hid. discriminate.
-    + intros s n [Hinv ->]. destruct nf.
-      * (* with no faults the tick cannot fail: this exit is only reached when nf = false *)
-        split; [|split; [exact Hinv|reflexivity]].
-Abort.
+      apply is_resid_true in Hid. destruct Hid as [H1 H2].
+      rewrite (ib_same _ _ B r' r Hr' Hrs H1 Hres H2). exact Hrp. }
+    split; [apply inv_del_res; [exact Hinv|discriminate]|].
+    split; [apply (ofpres_del_res _ _ g); assumption|].
+    right. intros Hc. apply Hnl. apply running_is_live. eapply running_carrier_sub; [|exact Hc].
+    intros q Hq. apply del_res_In in Hq. tauto.
+  - apply tsync_ret. intros n _. right. intros Hc. apply (no_frac_no_carrier g s0 Ef). apply running_is_live. exact Hc.
+  - apply tsync_ret. intros n [B _]. left. apply last_res_Some in El. destruct El as [Hin Hres].
+    destruct (listed_res g s0 n r B Hin Hres) as [Hrs Hrp]. apply has_res_iff. exists r. auto.
+  - rewrite <- Ef. eapply tsync_weaken; [|apply h_delete_non_reserved_T]. cbn beta.
+    intros s [Hsub _] H. right. intros [q [Hq [Hqr [Hph Hc]]]].
+    assert (Hin : In q (filter (fun p => negb (p_res p) && live_phase (p_phase p)) (listed g s0))).
+    { apply filter_In. split; [apply listed_carrier; auto|]. rewrite Hqr, Hph. reflexivity. }
+    specialize (H q Hin Hph q Hq). unfold is_consumer in H. rewrite Hqr, Pos.eqb_refl in H. discriminate.
+Qed.
+
+Lemma h_listed_then_T {A} oc s0 flt (k : list pod -> M A) G :
+  (tsync_spec oc s0 (k (filter flt s0)) G) -> tsync_spec oc s0 (l <- api_list flt ;; k l) G.
+Proof.
+  intros Hk. unfold tsync_spec in *.
+  hb; [eapply h_exit; [|apply h_api_list]|].
+  { intros s n [_ [H2 ->]]. split; [exact H2|apply ofpres_refl]. }
+  apply h_name. intros s1 n1 [[Hinv Es] El]. subst s1 a. eapply h_pre; [|exact Hk]. intros s n [-> ->]. auto.
+Qed.
+
+Lemma h_sync_group_T oc g s0 : tsync_spec oc s0 (sync_group g) (orphan_free_for g).
+Proof.
+  unfold sync_group. apply h_listed_then_T. apply h_listed_then_T. apply h_sync_for_pods_T.
+Qed.
+
+Lemma h_sync_each_T oc stop gs : forall s0,
+  tsync_spec oc s0 (sync_each stop gs) (fun s => stop = true -> forall g, In g gs -> orphan_free_for g s).
+Proof.
+  induction gs as [|g r IH]; intros s0; cbn [sync_each].
+  - apply tsync_ret. intros n _ _ g [].
+  - apply (tsync_try oc s0 (sync_group g) (fun _ => sync_each stop r)
+                     (if stop then fail else sync_each stop r) (orphan_free_for g)
+                     (fun s => stop = true -> forall g', In g' r -> orphan_free_for g' s)).
+    + apply h_sync_group_T.
+    + intros _ s1 _. apply IH.
+    + destruct stop; [left; reflexivity|right]. split; [|discriminate].
+      intros s1 _. eapply tsync_weaken; [|apply IH]. auto.
+    + intros s1 s2 _ [_ Hs] H1 H2 Hst g' [<-|Hin]; [auto|auto].
+Qed.
+
+Lemma h_sync_pods_list_T oc l s0 :
+  tsync_spec oc s0 (sync_pods_list l)
+             (fun s => forall g, In g (flat_map get_gpu_groups l) -> orphan_free_for g s).
+Proof.
+  unfold sync_pods_list.
+  eapply (tsync_seq oc s0 pop_ord _ (fun _ => True)
+                    (fun s => forall g, In g (flat_map get_gpu_groups l) -> orphan_free_for g s) _).
+  - apply tsync_frame. intros P E. apply h_pop_ord.
+  - intros o s1 _. eapply tsync_weaken; [|apply h_sync_each_T]. cbn beta.
+    intros s _ H g Hg. apply (H eq_refl). apply order_by_In, dedup_In. exact Hg.
+  - cbn beta. auto.
+Qed.
+
+(** start-up Sync visits every group carried by a pod that has the plain label *)
+Definition visited_by_sync (s0 : list pod) (g : group) : Prop :=
+  exists p, In p s0 /\ labelled p = true /\ carries p g.
+Lemma h_sync_all_T oc s0 :
+  tsync_spec oc s0 sync_all (fun s => forall g, visited_by_sync s0 g -> orphan_free_for g s).
+Proof.
+  unfold sync_all. apply h_listed_then_T.
+  eapply tsync_weaken; [|apply h_sync_pods_list_T]. cbn beta.
+  intros s _ H g [p [Hp [Hl Hc]]]. apply H. apply in_flat_map. exists p. split.
+  - apply filter_In. auto.
+  - apply get_gpu_groups_In. exact Hc.
+Qed.
+
+Lemma h_drain_T oc fuel : forall s0, tsync_spec oc s0 (drain fuel) (fun _ => True).
+Proof.
+  induction fuel as [|f IH]; intros s0; cbn [drain]; [apply tsync_ret; auto|].
+  eapply (tsync_seq oc s0 pop_pend _ (fun _ => True) (fun _ => True) _).
+  - apply tsync_frame. intros P E. apply h_pop_pend.
+  - intros [[p b]|] s1 _; [|apply tsync_ret; auto].
+    eapply (tsync_seq oc s1 _ _ (fun _ => True) (fun _ => True) _).
+    + unfold on_pod_delete. eapply (tsync_seq oc s1 pop_ord _ (fun _ => True) (fun _ => True) _).
+      * apply tsync_frame. intros P E. apply h_pop_ord.
+      * intros o s2 _. unfold sync_if_needed. eapply tsync_weaken; [|apply h_sync_each_T]. auto.
+      * auto.
+    + intros _ s2 _. eapply (tsync_seq oc s2 _ _ (fun _ => True) (fun _ => True) _).
+      * destruct b; [unfold on_br_delete; eapply tsync_weaken; [|apply h_sync_each_T]; auto|apply tsync_ret; auto].
+      * intros _ s3 _. apply IH.
+      * auto.
+    + auto.
+  - auto.
+Qed.
+
+(** every running pod attached to an unreserved group carries the plain label *)
+Definition orphans_visible (s : list pod) : Prop :=
+  forall p g, In p s -> p_res p = false -> p_phase p = Running -> carries p g -> ~ has_res s g ->
+              p_plain p <> None.
+
+Theorem no_orphan_after_startup_sync cs h ord dp w' :
+  orphans_visible (ps_store (exec h (init_state cs))) ->
+  exec_world (quiet_step EvRestart ord dp) (exec h (init_state cs)) = (Ok tt, w') ->
+  no_running_orphan (w_store w') /\ at_most_one (w_store w').
+Proof.
+  intros Hvis He. pose proof (reach_base cs h) as Hinv. set (s := exec h (init_state cs)) in *.
+  set (s0 := ps_store s) in *.
+  set (Gf := fun st => forall g, (orphan_free_for g s0 \/ visited_by_sync s0 g) -> orphan_free_for g st).
+  assert (Hspec : hoareF true (fun st n => st = s0 /\ n = ps_next s)
+                         (exec_prog (quiet_step EvRestart ord dp) (S (length s0)))
+                         (fun _ st n => inv false None st n /\ ofpres s0 st /\ Gf st) (fun _ _ => True)).
+  { unfold exec_prog. cbn [quiet_step s_ev run_event exits_on_error].
+    hb; [apply h_try; eapply h_exit with (E' := fun _ _ => True);
+         [|eapply h_pre; [|apply (h_sync_all_T None s0)]]|].
+    - auto.
+    - intros st n [-> ->]. auto.
+    - destruct a as [u|]; cbn beta; [|intros w _ _; cbn; auto].
+      apply h_name. intros s1 n1 [Hinv1 [Hs1 HG1]].
+      eapply h_conseq; [apply (h_drain_T None (S (length s0)) s1)| | |]; cbn beta.
+      + intros st n [-> ->]. auto.
+      + intros u' st n [Hi [Hs _]]. split; [exact Hi|]. split; [eapply ofpres_trans; eauto|].
+        intros g [Hg|Hg]; [apply (proj2 (ofpres_trans _ _ _ Hs1 Hs)); exact Hg|].
+        apply (proj2 Hs). auto.
+      + auto. }
+  rewrite exec_world_eq in He.
+  specialize (Hspec (start_world (quiet_step EvRestart ord dp) s) (fun _ => eq_refl) (conj eq_refl eq_refl)).
+  fold s0 in He. rewrite He in Hspec. destruct Hspec as [[Hi [[Hsub _] HG]] _].
+  split; [|destruct Hi as [B _]; exact (ib_amo _ _ B)].
+  intros g Hrc. destruct Hrc as [q [Hq [Hqr [Hph Hc]]]].
+  assert (Hq0 : In q s0) by auto.
+  assert (Hof : orphan_free_for g (w_store w')).
+  { apply HG. destruct (res_of g s0) as [|r l] eqn:Er.
+    - right. exists q. split; [exact Hq0|]. split; [|exact Hc].
+      assert (Hnr : ~ has_res s0 g) by (apply res_of_nil; exact Er).
+      pose proof (Hvis q g Hq0 Hqr Hph Hc Hnr) as Hpl. unfold labelled. destruct (p_plain q); [reflexivity|congruence].
+    - left. left. unfold has_res. rewrite Er. discriminate. }
+  destruct Hof as [Hr|Hn]; [exact Hr|]. exfalso. apply Hn. exists q. auto.
+Qed.
